@@ -249,6 +249,7 @@ def copy_repo(dst: Path, profile: str, shims: list[str], shim_dir: Path, mount: 
         # only for the properties whose instances use atomic scheduling points (C12, C03): the
         # wrappers double the symbolic-execution cost of everything that touches a stream
         instrument_atomics(dst)
+    if mount:
         for rel, mods in MOUNTS.items():
             f = dst / rel
             if not f.exists():
